@@ -346,3 +346,208 @@ Proof.
     destruct (above_b NO cs a b (i - 1)) as [[|]|]; reflexivity.
 Qed.
 End Meaning.
+
+Lemma Forall2_len {A B} (R : A -> B -> Prop) : forall l1 l2, Forall2 R l1 l2 -> List.length l1 = List.length l2.
+Proof. induction 1; cbn; congruence. Qed.
+
+(* ---------------------------------------------------------------- congruence *)
+(* An analysis function sees a candle only through its OHLCV and the readings it names:
+   lists that agree on those give the same answer. *)
+Section Sim.
+Context (NO : NumOps).
+Notation cd := (cd (payload NO)).
+Notation rbi := (reading_by_index NO).
+
+Definition names_of (f : afun) : list string :=
+  match f with
+  | A_above a b | A_below a b | A_cross a b _ | A_crossover a b _ | A_crossunder a b _ => [a; b]
+  | A_value_range nm _ | A_rising nm _ | A_falling nm _ | A_mean_rising nm _ | A_mean_falling nm _
+  | A_highest nm _ | A_lowest nm _ | A_highestbar nm _ | A_lowestbar nm _ => [nm]
+  | _ => []
+  end.
+
+Variable names : list string.
+Definition sim (c1 c2 : cd) : Prop :=
+  cur NO (p c1) = cur NO (p c2) /\
+  forall n, In n names -> reading_by_candle NO (p c1) n = reading_by_candle NO (p c2) n.
+
+Lemma sim_len (cs1 cs2 : list cd) : Forall2 sim cs1 cs2 -> zlen cs1 = zlen cs2.
+Proof. intros Hsim. unfold zlen. f_equal. eapply Forall2_len. exact Hsim. Qed.
+
+Lemma sim_nth (cs1 cs2 : list cd) : Forall2 sim cs1 cs2 -> forall k, match nth_error cs1 k, nth_error cs2 k with
+  | Some c1, Some c2 => sim c1 c2 | None, None => True | _, _ => False end.
+Proof.
+  induction 1 as [|c1 c2 l1 l2 Hc H IH]; intros k; [destruct k; exact I|].
+  destruct k as [|k]; cbn; [exact Hc|apply IH].
+Qed.
+Lemma sim_pyidx (cs1 cs2 : list cd) (Hsim : Forall2 sim cs1 cs2) j : match pyidx cs1 j, pyidx cs2 j with
+  | Some c1, Some c2 => sim c1 c2 | None, None => True | _, _ => False end.
+Proof.
+  unfold pyidx. rewrite <- (sim_len cs1 cs2 Hsim).
+  destruct ((0 <=? j) && (j <? zlen cs1)); [apply sim_nth; exact Hsim|].
+  destruct ((j <? 0) && (- zlen cs1 <=? j)); [apply sim_nth; exact Hsim|exact I].
+Qed.
+
+Lemma rbi_sim (cs1 cs2 : list cd) (Hsim : Forall2 sim cs1 cs2) n j : In n names -> rbi cs1 n j = rbi cs2 n j.
+Proof.
+  intros Hn. unfold reading_by_index. rewrite <- (sim_len cs1 cs2 Hsim). destruct (negb (valid_index j (zlen cs1))); [reflexivity|].
+  pose proof (sim_pyidx cs1 cs2 Hsim j) as H. destruct (pyidx cs1 j), (pyidx cs2 j); try contradiction; [|reflexivity].
+  apply H. exact Hn.
+Qed.
+
+Lemma sim_firstn (cs1 cs2 : list cd) : Forall2 sim cs1 cs2 -> forall k, Forall2 sim (firstn k cs1) (firstn k cs2).
+Proof.
+  induction 1 as [|c1 c2 l1 l2 Hc H IH]; intros k; [destruct k; constructor|].
+  destruct k; cbn; [constructor|constructor; [exact Hc|apply IH]].
+Qed.
+Lemma sim_skipn (cs1 cs2 : list cd) : Forall2 sim cs1 cs2 -> forall k, Forall2 sim (skipn k cs1) (skipn k cs2).
+Proof.
+  induction 1 as [|c1 c2 l1 l2 Hc H IH]; intros k; [destruct k; constructor|].
+  destruct k; cbn; [constructor; assumption|apply IH].
+Qed.
+End Sim.
+
+Section Sim2.
+Context (NO : NumOps).
+Notation cd := (cd (payload NO)).
+Variable names : list string.
+
+Lemma sim_pyslice (cs1 cs2 : list cd) a b : Forall2 (sim NO names) cs1 cs2 ->
+  Forall2 (sim NO names) (pyslice cs1 a b) (pyslice cs2 a b).
+Proof.
+  intros H. unfold pyslice. rewrite <- (sim_len NO names cs1 cs2 H).
+  destruct (slice_bound (zlen cs1) b <=? slice_bound (zlen cs1) a); [constructor|].
+  apply sim_firstn. apply sim_skipn. exact H.
+Qed.
+
+Lemma mapM_sim (l1 l2 : list cd) n : In n names -> Forall2 (sim NO names) l1 l2 ->
+  mapM (fun c => reading_by_candle NO (p c) n) l1 = mapM (fun c => reading_by_candle NO (p c) n) l2.
+Proof.
+  intros Hn H. induction H as [|c1 c2 l1 l2 Hc H IH]; [reflexivity|]. cbn [mapM].
+  destruct Hc as [_ Hc]. rewrite (Hc n Hn), IH. reflexivity.
+Qed.
+Lemma map_cur_sim (l1 l2 : list cd) (g : ohlcv NO -> num NO) : Forall2 (sim NO names) l1 l2 ->
+  map (fun c => g (cur NO (p c))) l1 = map (fun c => g (cur NO (p c))) l2.
+Proof.
+  intros H. induction H as [|c1 c2 l1 l2 Hc H IH]; [reflexivity|]. cbn [map].
+  destruct Hc as [Hc _]. rewrite Hc, IH. reflexivity.
+Qed.
+
+Variables cs1 cs2 : list cd.
+Hypothesis Hsim : Forall2 (sim NO names) cs1 cs2.
+
+Lemma clean_readings_sim n length j incl : In n names ->
+  clean_readings NO cs1 n length j incl = clean_readings NO cs2 n length j incl.
+Proof. intros Hn. unfold clean_readings. rewrite (mapM_sim _ _ n Hn (sim_pyslice cs1 cs2 _ _ Hsim)). reflexivity. Qed.
+
+Lemma at_index_sim j : at_index NO cs1 j = at_index NO cs2 j.
+Proof.
+  unfold at_index. pose proof (sim_pyidx NO names cs1 cs2 Hsim j) as H.
+  destruct (pyidx cs1 j), (pyidx cs2 j); try contradiction; [|reflexivity]. destruct H as [H _]. rewrite H. reflexivity.
+Qed.
+Lemma geom_avg_sim g length j : geom_avg NO g cs1 length j = geom_avg NO g cs2 length j.
+Proof.
+  unfold geom_avg. rewrite <- (sim_len NO names cs1 cs2 Hsim).
+  destruct ((zlen cs1 <? j + 1) || (j + 1 <? 0)); [reflexivity|].
+  rewrite (map_cur_sim _ _ g (sim_pyslice cs1 cs2 _ _ Hsim)). reflexivity.
+Qed.
+
+Lemma above_b_sim a b j : In a names -> In b names -> above_b NO cs1 a b j = above_b NO cs2 a b j.
+Proof.
+  intros Ha Hb. unfold above_b. rewrite (rbi_sim NO names cs1 cs2 Hsim a j Ha), (rbi_sim NO names cs1 cs2 Hsim b j Hb).
+  inversion Hsim; reflexivity.
+Qed.
+Lemma below_b_sim a b j : In a names -> In b names -> below_b NO cs1 a b j = below_b NO cs2 a b j.
+Proof.
+  intros Ha Hb. unfold below_b. rewrite (rbi_sim NO names cs1 cs2 Hsim a j Ha), (rbi_sim NO names cs1 cs2 Hsim b j Hb).
+  inversion Hsim; reflexivity.
+Qed.
+
+Lemma bar_loop_sim lowest n : In n names -> forall idxs k best d,
+  bar_loop NO lowest cs1 n idxs k best d = bar_loop NO lowest cs2 n idxs k best d.
+Proof.
+  intros Hn. induction idxs as [|j idxs IH]; intros k best d; [reflexivity|]. cbn [bar_loop].
+  rewrite (rbi_sim NO names cs1 cs2 Hsim n j Hn).
+  destruct (reading_by_index NO cs2 n j) as [v|]; cbn [bind]; [|reflexivity].
+  destruct (is_none NO v); [apply IH|]. destruct best as [b0|]; [|apply IH].
+  destruct (if lowest then val_gt NO b0 v else val_lt NO b0 v) as [[|]|]; cbn [bind]; try reflexivity; apply IH.
+Qed.
+
+Lemma pattern_sim at_ lookback index :
+  (forall j, at_ cs1 j = at_ cs2 j) -> pattern NO at_ cs1 lookback index = pattern NO at_ cs2 lookback index.
+Proof.
+  intros H. unfold pattern. rewrite <- (sim_len NO names cs1 cs2 Hsim).
+  destruct (absindex _ (zlen cs1)) as [i|]; [|reflexivity].
+  destruct lookback as [lb|]; [|rewrite H; reflexivity].
+  rewrite (exists_m_ext (at_ cs1) (at_ cs2)); [reflexivity|]. intros x _. apply H.
+Qed.
+
+Theorem run_afun_sim (f : afun) index : incl (names_of f) names ->
+  run_afun NO f cs1 index = run_afun NO f cs2 index.
+Proof.
+  intros Hn. pose proof (sim_len NO names cs1 cs2 Hsim) as ZL.
+  assert (IN : forall n, In n (names_of f) -> In n names) by (intros n H; apply Hn; exact H).
+  destruct f; cbn [run_afun names_of] in *.
+  - unfold mv_positive. rewrite <- ZL. destruct (negb (valid_index _ (zlen cs1))); [reflexivity|].
+    pose proof (sim_pyidx NO names cs1 cs2 Hsim (match index with Some i => i | None => -1 end)) as H.
+    destruct (pyidx cs1 _), (pyidx cs2 _); try contradiction; [|reflexivity]. destruct H as [H _]. rewrite H. reflexivity.
+  - unfold mv_negative. rewrite <- ZL. destruct (negb (valid_index _ (zlen cs1))); [reflexivity|].
+    pose proof (sim_pyidx NO names cs1 cs2 Hsim (match index with Some i => i | None => -1 end)) as H.
+    destruct (pyidx cs1 _), (pyidx cs2 _); try contradiction; [|reflexivity]. destruct H as [H _]. rewrite H. reflexivity.
+  - unfold mv_above. rewrite above_b_sim by (apply IN; cbn; tauto). reflexivity.
+  - unfold mv_below. rewrite below_b_sim by (apply IN; cbn; tauto). reflexivity.
+  - unfold mv_value_range. rewrite <- ZL. destruct (absindex _ (zlen cs1)); [|reflexivity].
+    rewrite clean_readings_sim by (apply IN; cbn; tauto). reflexivity.
+  - unfold mv_rising, rise_fall. rewrite <- ZL. destruct (absindex _ (zlen cs1)) as [i|]; [|reflexivity].
+    destruct ((length <? 1) || (zlen cs1 <? 2)); [reflexivity|].
+    pose proof (sim_pyidx NO names cs1 cs2 Hsim (match index with Some i0 => i0 | None => -1 end)) as H.
+    destruct (pyidx cs1 _), (pyidx cs2 _); try contradiction; [|reflexivity]. destruct H as [_ H].
+    rewrite (H name) by (apply IN; cbn; tauto). rewrite clean_readings_sim by (apply IN; cbn; tauto). reflexivity.
+  - unfold mv_falling, rise_fall. rewrite <- ZL. destruct (absindex _ (zlen cs1)) as [i|]; [|reflexivity].
+    destruct ((length <? 1) || (zlen cs1 <? 2)); [reflexivity|].
+    pose proof (sim_pyidx NO names cs1 cs2 Hsim (match index with Some i0 => i0 | None => -1 end)) as H.
+    destruct (pyidx cs1 _), (pyidx cs2 _); try contradiction; [|reflexivity]. destruct H as [_ H].
+    rewrite (H name) by (apply IN; cbn; tauto). rewrite clean_readings_sim by (apply IN; cbn; tauto). reflexivity.
+  - unfold mv_mean_rising, mean_rise_fall. rewrite <- ZL. destruct (absindex _ (zlen cs1)) as [i|]; [|reflexivity].
+    destruct ((length <? 1) || (zlen cs1 <? 2)); [reflexivity|].
+    pose proof (sim_pyidx NO names cs1 cs2 Hsim i) as H.
+    destruct (pyidx cs1 i), (pyidx cs2 i); try contradiction; [|reflexivity]. destruct H as [_ H].
+    rewrite (H name) by (apply IN; cbn; tauto). rewrite clean_readings_sim by (apply IN; cbn; tauto). reflexivity.
+  - unfold mv_mean_falling, mean_rise_fall. rewrite <- ZL. destruct (absindex _ (zlen cs1)) as [i|]; [|reflexivity].
+    destruct ((length <? 1) || (zlen cs1 <? 2)); [reflexivity|].
+    pose proof (sim_pyidx NO names cs1 cs2 Hsim i) as H.
+    destruct (pyidx cs1 i), (pyidx cs2 i); try contradiction; [|reflexivity]. destruct H as [_ H].
+    rewrite (H name) by (apply IN; cbn; tauto). rewrite clean_readings_sim by (apply IN; cbn; tauto). reflexivity.
+  - unfold mv_highest, high_low_est. rewrite <- ZL. destruct (absindex _ (zlen cs1)); [|reflexivity].
+    destruct ((length <? 1) || (zlen cs1 =? 0)); [reflexivity|].
+    rewrite clean_readings_sim by (apply IN; cbn; tauto). reflexivity.
+  - unfold mv_lowest, high_low_est. rewrite <- ZL. destruct (absindex _ (zlen cs1)); [|reflexivity].
+    destruct ((length <? 1) || (zlen cs1 =? 0)); [reflexivity|].
+    rewrite clean_readings_sim by (apply IN; cbn; tauto). reflexivity.
+  - unfold mv_highestbar, high_low_bar. rewrite <- ZL. destruct (absindex _ (zlen cs1)); [|reflexivity].
+    rewrite bar_loop_sim by (apply IN; cbn; tauto). reflexivity.
+  - unfold mv_lowestbar, high_low_bar. rewrite <- ZL. destruct (absindex _ (zlen cs1)); [|reflexivity].
+    rewrite bar_loop_sim by (apply IN; cbn; tauto). reflexivity.
+  - unfold mv_cross. rewrite <- ZL. destruct (absindex _ (zlen cs1)); [|reflexivity].
+    erewrite exists_m_ext; [reflexivity|]. intros x _. cbn beta.
+    rewrite !(rbi_sim NO names cs1 cs2 Hsim a) by (apply IN; cbn; tauto).
+    rewrite !(rbi_sim NO names cs1 cs2 Hsim b) by (apply IN; cbn; tauto). reflexivity.
+  - unfold mv_crossover, cross_dir. rewrite <- ZL. destruct (absindex _ (zlen cs1)); [|reflexivity].
+    erewrite exists_m_ext; [reflexivity|]. intros x _. cbn beta.
+    rewrite !above_b_sim, !below_b_sim by (apply IN; cbn; tauto). reflexivity.
+  - unfold mv_crossunder, cross_dir. rewrite <- ZL. destruct (absindex _ (zlen cs1)); [|reflexivity].
+    erewrite exists_m_ext; [reflexivity|]. intros x _. cbn beta.
+    rewrite !above_b_sim, !below_b_sim by (apply IN; cbn; tauto). reflexivity.
+  - unfold pt_doji. apply pattern_sim. intros j. unfold doji_at, candle_doji, high_low_pct.
+    rewrite at_index_sim, geom_avg_sim. reflexivity.
+  - unfold pt_dojistar. apply pattern_sim. intros j.
+    unfold dojistar_at, candle_doji, candle_bodylong, high_low_pct, realbody_pct.
+    rewrite !at_index_sim, !geom_avg_sim. reflexivity.
+  - unfold pt_hammer. apply pattern_sim. intros j.
+    unfold hammer_at, candle_bodyshort, candle_shadow_veryshort, candle_near, high_low_pct, realbody_pct.
+    rewrite !at_index_sim, !geom_avg_sim. reflexivity.
+  - unfold pt_inverted_hammer. apply pattern_sim. intros j.
+    unfold inverted_hammer_at, candle_bodyshort, candle_shadow_veryshort, high_low_pct, realbody_pct.
+    rewrite !at_index_sim, !geom_avg_sim. reflexivity.
+Qed.
+End Sim2.
